@@ -170,7 +170,7 @@ func (ch *serverChannel) Receive(ctx async.Context) ([]byte, status.Status) {
 
 		select {
 		case <-ctx.Wait():
-			return nil, ctx.Status()
+			return nil, contextStatus(ctx)
 		case <-wait:
 		}
 	}
